@@ -80,7 +80,8 @@ func HC17_blur() {
 	}
 	var bp model.BiasProps = props
 	bias := NewFatigue(rt.Generators, rt.Generators, []FatigueFunction{&ExponentialFromZeroFatigue{}, &ConstFatigueFunction{}})
-	res := bias.Apply(current, current, &bp, nil)
+	original := vh.Params(vh.Alternatives("orig.", vh.AltIds[:A], crit), chose, crit, methodParams) // differs from current: must not be used
+	res := bias.Apply(original, current, &bp, nil)
 	rep := res.Props.(FatigueResult)
 	rt.Assert("C17.report-carries-ratio", rep.EffectiveFatigueRatio == f)
 	rt.Assert("C17.report-is-the-state-handed-on", rt.DeepEqual(rep.ConsideredAlternatives, res.DMP.ConsideredAlternatives) && rt.DeepEqual(rep.NotConsideredAlternatives, res.DMP.NotConsideredAlternatives))
